@@ -92,6 +92,10 @@ def one_case(rep, cs, seed, i):
         return
     base = allg[(False, False)]
     val = base[2]
+    if sem != "sum-product" and np.any(val == 0):
+        # an exactly-zero value has no logarithm: log-space evaluation cannot carry a derivative through it (not a defect)
+        rep.count("skipped:exact-zero-value-in-log-space")
+        return
     for fl, (gd, gx, v) in allg.items():
         for pl in leaves:
             a, b = base[0][id(pl)], gd[id(pl)]
